@@ -315,6 +315,15 @@ def check_number_no_arith(ctx, rep):
             nm = strip_generics(mir.callee_name(t) or "")
             if re.match(r"^std::f(32|64)::<impl f(32|64)>::(powi|powf|exp|exp2|mul_add|ln|log10|sqrt)$", nm) or nm.startswith("core::f64::<impl f64>::pow"):
                 bad.append((bi, nm.split("::")[-1]))
+        # ... and no f64 is turned back into text on the way: `format!("{mantissa}{exponent}").parse()` with a mantissa that was
+        # already converted rounds twice (about 8 % of the shortest scientific spellings of doubles come out one ulp off)
+        for bi, t in b.calls():
+            nm = strip_generics(mir.callee_name(t) or "")
+            if nm.startswith("core::fmt::rt::Argument::new_"):
+                c = callee_of(t) or {}
+                targs = [x for x in c.get("targs", []) if not x.startswith("'")]
+                if targs and targs[0].replace("&", "").strip() in ("f64", "f32"):
+                    bad.append((bi, "an %s is formatted into text (%s)" % (targs[0], nm.split("::")[-1])))
         key = "number-text-parsed-once:%s" % b.short.split("::")[-1]
         if bad:
             rep.bad("T-NUMFMT", "T-NUMFMT:" + key, b.where(bad[0][0]), "%s computes with floats (%s): the decoded value is no longer the correctly rounded value of the text" % (b.short.split("::")[-1], ", ".join(x[1] for x in bad[:3])))
